@@ -515,7 +515,7 @@ func init() {
 			"x 4 hash functions, through Hash, AppendHash(nil) and AppendHash into empty buffers with spare capacity, against a literal transcription of XEP-0115 5.1 anchored on the XEP's two worked examples. Non-trivial = distinct info value with at least two items in some dimension (a real permutation) or at least one form.",
 		Assumptions: []string{"forms without FORM_TYPE or with duplicate FORM_TYPEs have no defined 5.1 value: only order-independence and no-panic are required for them"},
 		Parts: func(tier string) []drv.Part {
-			n, mf, mv, budget := 3, 2, 2, 100*time.Second
+			n, mf, mv, budget := 3, 2, 2, 4*time.Minute
 			if tier == "thorough" {
 				n, mf, mv, budget = 4, 3, 2, 20*time.Minute
 			}
